@@ -368,6 +368,7 @@ def toy : Codec where
       (`in` = blob decoded with `src`; `out` = processed blob decoded with `dst`)
 * `C04 rec <src> <dst> <enc|nil|cut> <payloadhex>` → same for `recompress`
 * `C04 e2e <fmt> <tileformat> <src> <keep|raw|gzip|brotli> <force>` → `declared=<comp>` | `rejected`
+* `C04 world <kind> <fmt> <src> <target> <force> <a> <b> <c>` → `declared=<comp>` | `rejected` | `failed`
 * `C04 leaves <src> <keep|raw|gzip|brotli> <force>` → `declared=<comp>` (PMTiles with leaf directories)
 -/
 
@@ -454,6 +455,17 @@ def handle (args : List String) : String :=
       let r : Reader := { comp := s, tilejson := [], tiles := [] }
       let p : ConvParams := { target := t, force := f }
       if writerAccepts fmt tf (declared r p) then s!"declared={(declared r p).name}" else "rejected"
+    | _, _, _, _ => "bad-op"
+  | ["world", kind, fmt, s, t, f, _, _, _] =>
+    -- conversions of special worlds (options, pre-existing output, extreme zooms, foreign source containers, many
+    -- tiles, an undecodable tile): the compression decision is the same; `fault` must fail iff the tile has to be recoded
+    let tgt : Option (Option Comp) := if t == "keep" then some none else (parseComp t).map some
+    match parseFmt fmt, parseComp s, tgt, parseBool f with
+    | some fmt, some s, some t, some f =>
+      let r : Reader := { comp := s, tilejson := [], tiles := [] }
+      let p : ConvParams := { target := t, force := f }
+      if kind == "fault" && !(convSteps r p).isEmpty then "failed"
+      else if writerAccepts fmt "pbf" (declared r p) then s!"declared={(declared r p).name}" else "rejected"
     | _, _, _, _ => "bad-op"
   | ["leaves", s, t, f] =>
     -- a PMTiles conversion whose directory needs leaf directories: same decision as `e2e pmtiles pbf`
